@@ -56,7 +56,7 @@ func init() {
 		}
 		spec := &mc.Spec{
 			Level: "exploration",
-			Rule: "Reset: a real program (fsgen) creates every subset of ≤ maxKinds residue kinds out of 12 (deep path, path longer than PATH_MAX, mode-000 directory with content, hidden names, dangling / host / self symlinks, FIFO, socket, hard links, 2000 entries, file held open by a surviving process, read-only directory, weird names) in every tmpfs mount of the container (work dir, /tmp, a tmpfs nested in the work dir, a tmpfs with size options, two tmpfs whose names extend the names of earlier ones, three whose names contain pattern characters or a blank), with and without credential switching, on an environment built with and without an init command (the program also tries the root and /dev, where nothing may stay), in the histories run→Reset and run→run→Reset, the last run ending by itself or refused by the caller's sync callback after the program already ran (sync after exec); " +
+			Rule: "Reset: a real program (fsgen) creates every subset of ≤ maxKinds residue kinds out of 12 (deep path, path longer than PATH_MAX, mode-000 directory with content, hidden names, dangling / host / self symlinks, FIFO, socket, hard links, 2000 entries, file held open by a surviving process, read-only directory, weird names) in every tmpfs mount of the container (work dir, /tmp, a tmpfs nested in the work dir, a tmpfs with size options, two tmpfs whose names extend the names of earlier ones, three whose names contain pattern characters or a blank), with and without credential switching, on an environment built with and without an init command (the program also tries the root, /dev and the masked directory /proc/acpi, where nothing may stay), in the histories run→Reset and run→run→Reset, the last run ending by itself or refused by the caller's sync callback after the program already ran (sync after exec); " +
 				"afterwards every tmpfs mount must be empty as seen from the host through /proc/<init>/root; plus a Reset that cannot succeed (the init's open-file limit lowered to 24 from the host side, a directory chain of 40 levels left by the program): it either cleans everything or reports the failure. memfd: sizes {0,1,4095,4096,4097,65536,1 MiB+1} × byte patterns × reader behaviours (whole, one byte at a time, 7 at a time, failing midway, and readers with a size or position of their own: advanced bytes.Reader, partly consumed SectionReader window, file at an offset, bytes.Buffer, LimitedReader); content, offset and seals checked; every modification attempt by the holder of the descriptor and by a program exec'ed from the sealed file (on its own image and on a second sealed descriptor) must leave the bytes unchanged. " +
 				"non-trivial: at least one residue kind / size > 0; distinct = (kinds, credential mode, history, listing) or (size, pattern, reader, attack results)",
 			Bound:       map[string]any{"max_kinds": maxKinds, "tmpfs_mounts": c13tmpfs},
@@ -204,7 +204,8 @@ func c13reset(x *mc.X, kinds string, cred, twoRuns, refused bool) {
 		ctx, cancel := context.WithTimeout(context.Background(), 60*time.Second)
 		defer cancel()
 		// the program also tries its luck outside the declared writable mounts: in the root and in /dev
-		p := execveParam(append(append([]string{"/probe/fsgen", k}, dirs...), "/", "/dev"))
+		// … and in a directory the default mask list hides (proc is mounted: /proc/acpi is covered by an empty mount)
+		p := execveParam(append(append([]string{"/probe/fsgen", k}, dirs...), "/", "/dev", "/proc/acpi"))
 		if refuse {
 			p.SyncAfterExec = true
 			p.SyncFunc = func(int) error {
@@ -228,7 +229,7 @@ func c13reset(x *mc.X, kinds string, cred, twoRuns, refused bool) {
 	}
 	x.Note("last-run-refused-after-exec", refused)
 	x.Note("init-command", c13initCmd)
-	outside := func() string { return fmt.Sprint(listDir(root+"/"), listDir(root+"/dev")) }
+	outside := func() string { return fmt.Sprint(listDir(root+"/"), listDir(root+"/dev"), listDir(root+"/proc/acpi")) }
 	outsideBefore := outside()
 	if kinds != "" {
 		first, second := kinds, "hx"
@@ -290,7 +291,7 @@ func c13reset(x *mc.X, kinds string, cred, twoRuns, refused bool) {
 		x.Distinct(fmt.Sprint(kinds, cred, twoRuns, refused, c13initCmd, left, rerr))
 	}
 	if now := outside(); now != outsideBefore {
-		x.Failf("C13/reset/entries-survive-outside-the-declared-mounts", "after residue %v (credential switch %v, init command %v) and Reset, the root and /dev of the container list %s, before the run they listed %s: a program wrote where nothing is declared writable, and Reset does not look there", names, cred, c13initCmd, now, outsideBefore)
+		x.Failf("C13/reset/entries-survive-outside-the-declared-mounts", "after residue %v (credential switch %v, init command %v) and Reset, the root, /dev and the masked /proc/acpi of the container list %s, before the run they listed %s: a program wrote where nothing is declared writable, and Reset does not look there", names, cred, c13initCmd, now, outsideBefore)
 		c13drop()
 		return
 	}
